@@ -172,10 +172,10 @@ class PE(BinFormat):
         """
         if S and not S.Characteristics == IMAGE_SCN_LNK_REMOVE:
             addr = self.basemap + S.RVA
-            if addr % self.Opt.SectionAlignment:
+            if self.Opt.SectionAlignment and addr % self.Opt.SectionAlignment:
                 logger.warning("bad alignment for section %s" % S.Name)
             sta = S.PointerToRawData
-            if sta % self.Opt.FileAlignment:
+            if self.Opt.FileAlignment and sta % self.Opt.FileAlignment:
                 logger.warning("bad file alignment for section %s" % S.Name)
             sto = sta + S.SizeOfRawData
             bytes_ = self.data[sta:sto].ljust(S.VirtualSize, b"\x00")
